@@ -55,6 +55,78 @@ var c03Cases = []vCase{
 	{name: "cut-deep-recursion", prog: "c(z, k0) :- !. c(s(N), X) :- c(N, X). c(_, k1).", query: "c(s(s(z)), X)."},
 }
 
+// ---- generated family: every parenthesisation of a conjunction with a cut at every position ----
+
+// c03Trees renders every binary tree over leaves[l:r] as a parenthesised conjunction.
+func c03Trees(leaves []string) []string {
+	if len(leaves) == 1 {
+		return []string{leaves[0]}
+	}
+	var out []string
+	for cut := 1; cut < len(leaves); cut++ {
+		for _, a := range c03Trees(leaves[:cut]) {
+			for _, b := range c03Trees(leaves[cut:]) {
+				if cut > 1 {
+					a2 := "(" + a + ")"
+					out = append(out, a2+", "+c03Paren(b, len(leaves)-cut))
+					_ = a2
+				} else {
+					out = append(out, a+", "+c03Paren(b, len(leaves)-cut))
+				}
+			}
+		}
+	}
+	return out
+}
+
+func c03Paren(s string, n int) string {
+	if n > 1 {
+		return "(" + s + ")"
+	}
+	return s
+}
+
+// VH_C03_shape: inst = context*2 + (number of leaves - 3). The body is q(X), then goals of which exactly one is a cut
+// (position by case split), the one after the cut being the nondeterministic r(Y); the shape of the conjunction tree
+// is a case split over all parenthesisations (2 for 3 leaves, 5 for 4). Contexts: 0 clause body followed by another
+// clause, 1 top-level disjunct, 2 goal of call/1 inside a disjunction, 3 body of a clause called through call/2.
+func VH_C03_shape(vm *VM, inst int) {
+	n := 3 + inst%2
+	ctx := inst / 2
+	cutPos := 1 + choice("cutpos", n-1)
+	leaves := make([]string, n)
+	leaves[0] = "q(X)"
+	for i := 1; i < n; i++ {
+		switch {
+		case i == cutPos:
+			leaves[i] = "!"
+		case i == cutPos+1:
+			leaves[i] = "r(Y)"
+		case i < cutPos:
+			leaves[i] = "s(X)"
+		default:
+			leaves[i] = "true"
+		}
+	}
+	trees := c03Trees(leaves)
+	body := trees[choice("shape", len(trees))]
+	base := "q(k0). q(k1). r(k0). r(k1). s(k0). s(k1). o(k0). o(k1). "
+	var c vCase
+	switch ctx {
+	case 0:
+		c = vCase{name: "shape-body", prog: base + "p(X, Y) :- " + body + ". p(k2, k2).", query: "o(A), p(X, Y)."}
+	case 1:
+		c = vCase{name: "shape-disjunct", prog: base + "p(X, Y) :- ( " + body + " ; X = k2 ).", query: "o(A), p(X, Y)."}
+	case 2:
+		c = vCase{name: "shape-call", prog: base, query: "o(A), call(((" + body + ") ; X = k2))."}
+	default:
+		c = vCase{name: "shape-call2", prog: base + "p(X, Y) :- " + body + ". p(k2, k2). c(G, X, Y) :- call(G, X, Y).", query: "o(A), c(p, X, Y)."}
+	}
+	note("case", c.prog+" ?- "+c.query)
+	vRunCase(vm, c, "", false)
+	reach("c03/shape", true)
+}
+
 func VH_C03(vm *VM, inst int) {
 	c := c03Cases[inst]
 	vRunCase(vm, c, "", false)
